@@ -32,7 +32,7 @@ theorem gen_read_shape :
 /-- `buildNode` consults and fills its memo and builds dependencies before the BUILD line -/
 theorem gen_build_shape :
     Caco3Loader.buildMemoConsulted = true ∧ Caco3Loader.buildMemoFilled = true ∧
-    Caco3Loader.depsBeforeBuild = true := by decide
+    Caco3Loader.depsBeforeBuild = true ∧ Caco3Loader.srcTargetContinues = true := by decide
 
 /-- the rule kinds the model covers exist under these type names -/
 theorem gen_rule_types :
